@@ -90,6 +90,15 @@ def run(tier, rep, ev):
     # 'mem' = the call needed more than 1 GiB of ADDRESS SPACE.  A decoder may reserve a large dictionary it never touches (LZMA/LZMA2
     # dictionary size is a coder property, up to 4 GiB by the format); what the property bounds is memory really used.  Every such case
     # is run again with 8 GiB of address space and judged by the growth of its resident set (bound: 512 MiB) and the time limit.
+    # a verdict "did not return" is confirmed before it counts: the case is run again, few at a time (16 sandboxes next to other load can
+    # starve one of them for seconds), with 30 s
+    hung = [k for k, o in enumerate(outs) if o.status == "hang"]
+    if hung:
+        outs4 = sandbox.run_cases(damage.run_sequence, [cases[k] for k in hung], timeout=30, nproc=4, slice_size=1, mem=1 << 30)
+        for k, o4 in zip(hung, outs4):
+            if o4.status != "hang":
+                outs[k] = o4
+        ev.cov["hangs_not_confirmed_on_rerun"] = sum(1 for k in hung if outs[k].status != "hang")
     again = [k for k, o in enumerate(outs) if o.status == "mem" or (o.status == "crash" and "ppmd" in meta[k]["archive"].lower())]
     if again:
         outs2 = sandbox.run_cases(damage.run_sequence_rss, [cases[k] for k in again], timeout=20, nproc=8, slice_size=1, mem=8 << 30)
@@ -110,6 +119,22 @@ def run(tier, rep, ev):
             elif o2.status in ("hang", "crash"):
                 outs[k] = o2
         ev.cov["address_space_reserved_but_not_used"] = reserved
+    # "proportional to ... the output it legitimately declares": a mutation that DECLARES gigabytes of output (a size field := 2^32-1, 2^63)
+    # on a decoder that keeps producing when its input has run out (PPMd decodes zeros for ever) is slow in proportion to that
+    # declaration, not without bound: such a case that did not return within 10 s is run again with time for the declared output and
+    # judged by its resident growth.
+    import re as _re
+    slow = []
+    for k, o in enumerate(outs):
+        mm = _re.search(r"sizes/\d+ := (\d+)", meta[k]["what"]) if o.status == "hang" else None
+        if mm and int(mm.group(1)) >= 1 << 30:
+            slow.append(k)
+    if slow:
+        outs3 = sandbox.run_cases(damage.run_sequence_rss, [cases[k] for k in slow], timeout=900, nproc=4, slice_size=1, mem=8 << 30)
+        for k, o3 in zip(slow, outs3):
+            if o3.status == "ok" and o3.value.get("rss_growth_kb", 1 << 30) <= 512 * 1024:
+                outs[k] = sandbox.Outcome("ok", o3.value, "time in proportion to the declared output", o3.wall)
+        ev.cov["slow_in_proportion_to_declared_output"] = len(slow)
     stats = {}
     for m, c, o in zip(meta, cases, outs):
         ev.case((m["archive"], m["what"], tuple(m["seq"])))
